@@ -701,16 +701,18 @@ class BrownianInterval(brownian_base.BaseBrownian, _Interval):
         # For safety we then make this a bit smaller by multiplying by 0.8.
         piece_length = self._tree_dt * cache_size * 0.8
 
-        def _set_points(interval):
+        # Iterative (explicit stack) rather than recursive: the existing tree may contain long chains of intervals,
+        # e.g. those created by consecutive queries during the warm-up period.
+        stack = [self]
+        while len(stack):
+            interval = stack.pop()
             start = interval._start
             end = interval._end
             if end - start > piece_length:
                 midway = (end + start) / 2
                 interval._loc(start, midway)
-                _set_points(interval._left_child)
-                _set_points(interval._right_child)
-
-        _set_points(self)
+                stack.append(interval._right_child)
+                stack.append(interval._left_child)
 
     def __repr__(self):
         if self._dt is None:
